@@ -1,5 +1,6 @@
 import Spake2Verif.Proofs.PropAuxB3
 import Spake2Verif.Proofs.UnknownGroup
+import Spake2Verif.Proofs.EdShapeTie
 import Spake2Verif.Spec.ToyCurves
 /-!
 # C13 — Group elements obey the group axioms through the element API, in every group
@@ -430,5 +431,24 @@ theorem toy_curves_are_instances :
     Nat.card specToy389.A = 424 ∧ Nat.card specToy397.A = 424 ∧ specToy389.TorsionIsCyclic ∧ specToy397.TorsionIsCyclic :=
   ⟨curveOK_toy389, curveOK_toy397, curveOK_toy421, curveOK_toy461, specToy389_card, specToy397_card,
    specToy389_torsionIsCyclic, specToy397_torsionIsCyclic⟩
+
+/-! ### Tie A for the class layer -/
+
+/-- the model's `scalarmult`, `add`, `negate` (dispatch on the class of the receiver, promotion rules, `Zero`) and
+the checks of `bytes_to_element` ARE the translation `Gen/EdShape.lean` that `tools/py2lean.py` regenerates from the
+three classes of `ed25519_basic.py` on every run (objects as `(kind, XYTZ)` via `EdShapeTie.toS`), for every curve. -/
+theorem class_layer_is_translated (c : Curve) :
+    (∀ a s, (Ed25519.smul c a s).map EdShapeTie.toS =
+      EdShape.smul c.Q c.L c.d (Ed25519.zeroPt c) (EdShapeTie.toS a) s) ∧
+    (∀ a b, (Ed25519.add c a b).map EdShapeTie.toS =
+      EdShape.add c.Q c.L c.d (Ed25519.zeroPt c) (EdShapeTie.toS a) (EdShapeTie.toS b)) ∧
+    (∀ a, (Ed25519.negate c a).map EdShapeTie.toS =
+      EdShape.negate c.Q c.L c.d (Ed25519.zeroPt c) (EdShapeTie.toS a)) ∧
+    (0 ≤ c.L → ∀ b, (Ed25519.dec c b).map EdShapeTie.toS =
+      EdShape.dec_checks c.Q c.L c.d (Ed25519.zeroPt c) (fun x => (Ed25519.decUnknown c x).map EdShapeTie.toS)
+        (fun p => Ed25519.toBytes c (EdShapeTie.ofS p)) b) ∧
+    Ed25519.zeroPt c = EdShape.zero_pt c.Q :=
+  ⟨EdShapeTie.smul_tie c, EdShapeTie.add_tie c, EdShapeTie.negate_tie c, fun h => EdShapeTie.dec_tie c h,
+   EdShapeTie.zeroPt_tie c⟩
 
 end Spake2Verif.C13
